@@ -99,6 +99,30 @@ def h_fit_to_data(rec):
     return False, "model history and the bounded grid of loss orderings passed on the real code"
 
 
+@handler("leaf")
+def h_leaf(rec):
+    m, rp, prop = rec["model"] or {}, rec["replay"], rec["property"]
+    cname = rp["cls"]
+    prm = {k: v for k, v in m.items() if k not in ("x", "y") and not k.startswith("fn:")}
+    tried = []
+    try:
+        x = rt.fnum(m["x"]) if rp.get("input") == "x" else None
+        y = rt.fnum(m["y"]) if rp.get("input") == "y" else None
+        if rp.get("method") == "inverse" and rp.get("input") == "x":
+            pass
+        fails = rt.rt_leaf(prop, cname, prm, x=x, y=y)
+        tried.append(f"model point x={x} y={y} params={prm}")
+        if fails:
+            return True, f"{cname}({prm}): " + "; ".join(fails)
+    except Exception as ex:  # noqa: BLE001
+        tried.append(f"model point not usable ({type(ex).__name__}: {ex})")
+    # models of uninterpreted exp/log/tanh may be non-standard: search the boundary-directed grid of this class
+    fails = rt.rt_leaf_grid(prop, cname, first_only=True)
+    if fails:
+        return True, fails[0]["what"]
+    return False, f"not reproduced on the real code: {tried}; boundary-directed grid of {cname} passed"
+
+
 def main(path):
     with open(path) as fh:
         rec = json.load(fh)
